@@ -1,7 +1,12 @@
+//go:build !skip_c11
+
 package props
 
 import (
 	"fmt"
+	"math"
+
+	"verif/ast"
 
 	"verif/calcrun"
 	"verif/core"
@@ -115,6 +120,55 @@ func c11VMCase(pool []val.Value, idx int) core.Result {
 		}
 		res.Add("vm_temp_forms", 1)
 	}
+	// literal forms: the same pair with one or both operands written as literals (constant operands,
+	// constant folding) and as the update statements the compiler has shortcuts for (v = v op k, v = k op v),
+	// on a global and on a local.
+	la, aok := c11Literal(a)
+	lb, bok := c11Literal(b)
+	for _, op := range binOps {
+		want := val.Binary(op, a, b)
+		type form struct {
+			src      string
+			readback string
+			pre      func()
+		}
+		var forms []form
+		if bok {
+			forms = append(forms, form{src: "xa " + op + " " + lb},
+				form{src: "xc = xc " + op + " " + lb, readback: "xc", pre: func() { ses.M.SetGlobal("xc", calcrun.ToCalc(a)) }},
+				form{src: "{\nzf = (p) -> {\n p = p " + op + " " + lb + "\n p\n}\nzf(xa)\n}"})
+		}
+		if aok {
+			forms = append(forms, form{src: la + " " + op + " xb"},
+				form{src: "xc = " + la + " " + op + " xc", readback: "xc", pre: func() { ses.M.SetGlobal("xc", calcrun.ToCalc(b)) }},
+				form{src: "{\nzf = (p) -> {\n p = " + la + " " + op + " p\n p\n}\nzf(xb)\n}"})
+		}
+		if aok && bok {
+			forms = append(forms, form{src: la + " " + op + " " + lb})
+		}
+		for _, f := range forms {
+			if f.pre != nil {
+				f.pre()
+			}
+			ob, bad := run(f.src)
+			if bad == "" {
+				bad = check(f.src, want, ob)
+			}
+			if bad != "" {
+				return fail(f.src, bad)
+			}
+			if f.readback != "" && ob.Err == "" && want.Kind == val.OVal {
+				rb, bad := run(f.readback)
+				if bad == "" {
+					bad = check(f.src+" ; "+f.readback, want, rb)
+				}
+				if bad != "" {
+					return fail(f.src+" ; "+f.readback, "the variable read back: "+bad)
+				}
+			}
+			res.Add("vm_literal_forms", 1)
+		}
+	}
 	for _, s := range calcrun.Shapes() {
 		res.Tag("shape:" + s)
 	}
@@ -122,4 +176,46 @@ func c11VMCase(pool []val.Value, idx int) core.Result {
 	res.Nontrivial = true
 	res.Sample = in
 	return res
+}
+
+// c11Literal writes a value as literal source text, if the grammar can denote
+// it exactly (no nil/function/NaN/infinite/negative-zero/huge floats, no
+// escapes).
+func c11Literal(v val.Value) (string, bool) {
+	n, ok := c11LitNode(v)
+	if !ok {
+		return "", false
+	}
+	return "(" + ast.Print(n, nil) + ")", true
+}
+
+func c11LitNode(v val.Value) (ast.Node, bool) {
+	switch v.K {
+	case val.Float:
+		f := v.F
+		if math.IsNaN(f) || math.IsInf(f, 0) || (f == 0 && math.Signbit(f)) || math.Abs(f) >= 1e15 || (f != 0 && math.Abs(f) < 1e-9) {
+			return nil, false
+		}
+		if f < 0 {
+			return ast.Unary{Op: "-", X: ast.FloatLit{V: -f}}, true
+		}
+		return ast.FloatLit{V: f}, true
+	case val.Arr:
+		es := make([]ast.Node, len(v.A))
+		for i, e := range v.A {
+			l, ok := c11LitNode(e)
+			if !ok {
+				return nil, false
+			}
+			es[i] = l
+		}
+		return ast.ArrayLit{Elems: es}, true
+	case val.Str:
+		for i := 0; i < len(v.S); i++ {
+			if v.S[i] < 0x20 || v.S[i] == '"' {
+				return nil, false
+			}
+		}
+	}
+	return literalOf(v)
 }
